@@ -384,6 +384,19 @@ def svcCreate (s : St) (o : Own) (env : Option Bool) : St × Res :=
         ({ s with links := l, devs, kdevs, prodSet, nonprodSet,
                   held := believe s.held o (.svip a) }, .ip a)
 
+/-- `on_create_request` whose veth creation fails (`netdev.link_add_veth` raising): the address was
+    allocated (or re-read) and is remembered in the device table; there is no device, no mark and no
+    reply - the request is answered with an error and may be sent again.  When the device is already
+    recorded no netdev call is made and the request runs as usual. -/
+def svcCreateCut (s : St) (o : Own) (env : Option Bool) : St × Res :=
+  match env with
+  | none => (s, .assertion)
+  | some _ =>
+    match svcAddr s o with
+    | .error r => (s, r)
+    | .ok (l, devs0, hasDev, _) =>
+      if hasDev then svcCreate s o env else ({ s with links := l, devs := devs0 }, .exc)
+
 /-- `on_delete_request(rsrc_id)`.  `byOwner`: the call is the owner's own release (its request
     went away) as opposed to the service expunging a stale device in `synchronize`. -/
 def svcDelete (s : St) (o : Own) (byOwner : Bool) : St × Res :=
@@ -450,6 +463,7 @@ inductive Op
   | epGc
   | svcRestart
   | svcCreate (o : Own) (env : Option Bool)
+  | svcCreateCut (o : Own) (env : Option Bool)
   | svcDelete (o : Own)
   | svcDeleteCut (o : Own)
   | svcSync
@@ -477,6 +491,7 @@ def step (c : Cidr) (s : St) : Op → St × Res
   | .epGc => (epGc s, .ok)
   | .svcRestart => (svcRestart s, .ok)
   | .svcCreate o env => svcCreate s o env
+  | .svcCreateCut o env => svcCreateCut s o env
   | .svcDelete o => svcDelete s o true
   | .svcDeleteCut o => svcDeleteCut s o
   | .devGone o => ({ s with kdevs := s.kdevs.filter (· ≠ o) }, .ok)
@@ -515,6 +530,7 @@ def opOk (inst : Nat → Bool) (s : St) : Op → Bool
   | .epGc => true
   | .svcRestart => true
   | .svcCreate o _ => ownerOk inst o
+  | .svcCreateCut o _ => ownerOk inst o
   | .svcDelete o => ownerOk inst o
   | .svcDeleteCut o => ownerOk inst o
   | .devGone _ => true
